@@ -1348,9 +1348,20 @@ def r8(ctx):
                        if any(t == m_.name or t.startswith(m_.name + ".") for t in om.imports.values())
                        and m_.name.startswith("hippolyzer.lib.base.") and m_.name.split(".")[-1] not in skip
                        and ".message" not in m_.name}
-    for f in [f for f in repo.all_funcs if f.module.rel in near]:
+    # a tolerant constructor on the enum itself (`PCode.from_wire(x)`: `cls(val)` inside) converts for its callers
+    pci = repo.resolve_class("PCode", repo.module(TMPL)) if "TMPL" in globals() else None
+    if pci is None:
+        pcs = repo.classes.get("PCode", [])
+        pci = pcs[0] if len(pcs) == 1 else None
+    own = []
+    if pci is not None:
+        used = {(ap(c.func) or "").split(".")[-1] for f in repo.all_funcs if f.module.rel in near for c in calls(f.node)
+                if ".PCode." in "." + (ap(c.func) or "")}
+        own = [m_ for nm, m_ in pci.methods.items() if nm in used]
+    for f in [f for f in repo.all_funcs if f.module.rel in near] + own:
         for c in calls(f.node):
-            if (ap(c.func) or "").split(".")[-1] == "PCode" and c.args and not isinstance(c.args[0], ast.Constant):
+            is_conv = (ap(c.func) or "").split(".")[-1] == "PCode" or (f in own and (ap(c.func) or "") == "cls")
+            if is_conv and c.args and not isinstance(c.args[0], ast.Constant):
                 npc += 1
                 from ..core import try_contexts
                 ok = any(tc.section == "body" and any(
